@@ -99,7 +99,9 @@ func (c *wtCase) flush(mainEvent string) {
 	for _, r := range recs {
 		if r.gid == c.mainGid {
 			if mainEvent != "" {
-				c.ctx.R.Op(mainEvent, "ok")
+				for _, ev := range strings.Split(mainEvent, ";") {
+					c.ctx.R.Op(ev, "ok") // (a PutMany is several writes inside ONE critical section)
+				}
 				mainEvent = ""
 			} else {
 				continue
@@ -404,6 +406,36 @@ func runWaitersCase(ctx *Ctx, specs [][2]interface{}, script []string) {
 			c.versions = append(c.versions, r.Version)
 			c.flush("write " + f[1])
 			c.settle()
+		case "putmany":
+			// several records in one call: every key's waiters must be woken
+			ks := strings.Split(f[1], ",")
+			var recs []kvs.Record
+			for _, k := range ks {
+				recs = append(recs, kvs.Record{Key: k, Value: []byte("m")})
+				delete(c.expiry, k)
+				delete(c.lapsed, k)
+				if c.parkedOn(k) > 0 {
+					c.nontriv = true
+				}
+			}
+			if err := c.st.PutMany(bg, recs); err != nil {
+				c.failed = true
+				continue
+			}
+			vers := inmem.VerifVersions(c.st)
+			var evs []string
+			for i, k := range ks {
+				v := vers[k]
+				for _, k2 := range ks[i+1:] {
+					if k2 == k {
+						v = "overwritten-within-the-batch"
+					}
+				}
+				c.versions = append(c.versions, v)
+				evs = append(evs, "write "+k)
+			}
+			c.flush(strings.Join(evs, ";"))
+			c.settle()
 		case "create":
 			v, err := c.st.Create(bg, kvs.Record{Key: f[1], Value: []byte("c")})
 			if err == nil {
@@ -607,8 +639,10 @@ func runWaiters(ctx *Ctx) {
 				}
 			case x < 48:
 				script = append(script, fmt.Sprintf("release %d", r.Intn(nw)))
-			case x < 55:
+			case x < 50:
 				script = append(script, "put "+k)
+			case x < 55:
+				script = append(script, "putmany "+[]string{"a,b", "b,a", "a,a", "a,b,a", "b"}[r.Intn(5)])
 			case x < 62:
 				script = append(script, "putx "+k)
 			case x < 70:
